@@ -214,8 +214,8 @@ func c02Check(env *core.Env, ci any) (res core.Result) {
 
 func init() {
 	core.Register(&core.Prop{
-		ID: "C02",
-		Rule: "rapid-generated programs from the fer model restricted to what both back ends accept today (ints up to 64 bit incl. 8/16-bit, bool, nested structs, methods, enums/match, fixed and dynamic arrays, references, loops, recursion; one of strings/results/closures as a probing feature in 30% of the cases) plus, in half of the cases, a float scenario (f32/f64 arithmetic, comparisons, int<->float casts, accumulation loop); compiled for native and wasm, run natively and under node with the shipped runtime.js (fresh runtime per module, worker thread). Oracle: equal termination kind and equal value sequence (stdout split on white space; tokens with a fraction/exponent compared numerically, rel. tol. 1e-5). A compile failure or LinkError on either side puts the case outside the property (counted as discard). non-trivial = accepted and run on both sides with >= 6 printed values; distinct = hash of the program text",
+		ID:    "C02",
+		Rule:  "rapid-generated programs from the fer model restricted to what both back ends accept today (ints up to 64 bit incl. 8/16-bit, bool, nested structs, methods, enums/match, fixed and dynamic arrays, references, loops, recursion; one of strings/results/closures as a probing feature in 30% of the cases) plus, in half of the cases, a float scenario (f32/f64 arithmetic, comparisons, int<->float casts, accumulation loop); compiled for native and wasm, run natively and under node with the shipped runtime.js (fresh runtime per module, worker thread). Oracle: equal termination kind and equal value sequence (stdout split on white space; tokens with a fraction/exponent compared numerically, rel. tol. 1e-5). A compile failure or LinkError on either side puts the case outside the property (counted as discard). non-trivial = accepted and run on both sides with >= 6 printed values; distinct = hash of the program text",
 		Gen:   c02Gen,
 		New:   func() any { return &progCase{} },
 		Check: c02Check,
